@@ -23,7 +23,8 @@ CHECKS = {
         text="Theorems: Inv (every recorded state well-formed: unique valid non-colliding names, lists = patch map, "
              "patch commits exist with one parent) holds initially and is preserved by every modelled command for all "
              "histories (C01_all_histories); opening a stack establishes the patch-ref mirror and every command keeps "
-             "it. Scope exclusion stated in the theorem: `stg reset <entry> <patches>`."),
+             "it; the 26 modelled commands include edit, squash, rebase, pick and uncommit with generated names. Scope "
+             "exclusion stated in the theorem: `stg reset <entry> <patches>`."),
     "C02": dict(category="proof", design_ref="DESIGN.md section 4/C02", note=HIST_NOTE, technique=HIST_TECH,
         text="Theorems: in every recorded state the applied patches form a first-parent chain ending at the top "
              "(preserved by every modelled command, all histories); when a set_head transaction completes (also on a "
@@ -34,7 +35,11 @@ CHECKS = {
         text="Theorem C03_fault_atomic: outside three named known classes a failure at any program point yields exit 2 "
              "with refs and checked-out tree unchanged; refs move only in the final reference transaction. Every "
              "corpus command x every program point (and every git invocation via a PATH shim) is run against the "
-             "real stg and compared with the model's prediction; the known classes are genuine findings F11/F24/F25."),
+             "real stg and compared with the model's prediction; the known classes are genuine findings F11/F24/F25. "
+             "Commands that fail on their own are covered by the history-level pass (exit 2 leaves the refs alone, also "
+             "on branches moved by plain git and with dirty trees) and by the dirt matrix (harness/dirtmatrix.py: 4 "
+             "stack arrangements x 6 kinds of local change x 47 commands on the real repository; exit 1 / 2 must leave "
+             "refs, HEAD, index entries and every work-tree file byte for byte)."),
     "C04": dict(category="proof", design_ref="DESIGN.md section 4/C04", note=PROTO_NOTE, technique=PROTO_TECH,
         text="Theorems: after a kill at any program point or after any prefix of the ordered single-ref operations the "
              "state ref is the old, the external-modification or the new state; no ref holds a foreign value; the "
@@ -43,7 +48,10 @@ CHECKS = {
     "C05": dict(category="proof", design_ref="DESIGN.md section 4/C05", note=HIST_NOTE, technique=HIST_TECH,
         text="Theorems over the abstract log: undo -n k = k-th state of the effective timeline, = k single undos; "
              "redo -n k = k-th entry of the redo stack, refused after any other operation; find_undo_state over the "
-             "object store IS that walk; reset_to_state installs exactly the logged state."),
+             "object store IS that walk; reset_to_state installs exactly the logged state. Direct oracle with its own "
+             "reading of the log for undo / redo and for `stg reset <entry> [<patches>]` (a full reset restores the "
+             "entry exactly; a partial one gives each named patch the recorded commit and, when it no longer existed, "
+             "the recorded hidden-ness); generator macros redo_chain, extmods, reset_deleted."),
     "C06": dict(category="proof", design_ref="DESIGN.md section 4/C06", note=HIST_NOTE, technique=HIST_TECH,
         text="Theorems: parent grouping terminates, keeps <= MAX_PARENTS parents and every original parent reachable; "
              "a new state commit reaches its previous state and every head/top/unapplied/hidden commit not already "
@@ -88,17 +96,25 @@ CHECKS = {
         text="Theorems: a conflict halt keeps every earlier push; halted transactions never exit 0; with conflicts "
              "disallowed nothing is touched; guarded commands and undo without --hard refuse while the index is "
              "unmerged; source ties: check_conflicts is called unguarded in push/pop/goto/float/sink/delete/new/"
-             "squash/spill and CONFLICT_ERROR = 3; for all 22 modelled commands the transaction-builder options in the "
+             "squash/spill and CONFLICT_ERROR = 3; for all 23 modelled commands the transaction-builder options in the "
              "current source (conflict policy, discard_changes, use_index_and_worktree, set_head, allow_bad_head) equal "
-             "the ones the model uses. Direct oracles: conflict-halt shape, refusal while unmerged, a halt keeps every "
-             "patch in exactly one list."),
+             "the ones the model uses. The configuration variable stgit.push.allow-conflicts is part of the model's "
+             "world (w_apc; every transaction takes allow_push_conflicts from the --conflicts flag or else from it, as "
+             "the source does): while it is false no stg command that was not given --conflicts=allow leaves unmerged "
+             "entries behind, stg commands never change it, hence for whole sessions "
+             "(C09_config_disallow_keeps_index_merged / _stg_keeps_config / _config_disallow_session). Direct oracles: "
+             "conflict-halt shape, refusal while unmerged, a halt keeps every patch in exactly one list (the patches a "
+             "squash was given excepted), no unmerged entries while the variable is false (generator profile NOCONF "
+             "switches it off and on around overlapping patches)."),
     "C10": dict(category="proof", design_ref="DESIGN.md section 4/C10", note=HIST_NOTE, technique=HIST_TECH,
         text="Theorem: the two-way merge model keeps every locally modified file or refuses; source ties: "
              "discard_changes only under --hard in every command, read-tree --reset only in reset --hard and behind "
              "fold's cleanliness check, cleanliness pre-checks present in push/pop/goto/float/sink. History-level "
              "differential testing with dirty trees (--keep and not) plus a direct oracle comparing the content of "
-             "every modified / untracked file around each command. Partial: merge-recursive's own refusal and "
-             "untracked files are judged by the direct oracle only."),
+             "every modified / untracked file around each command, dirty probes for commands outside the model, and the "
+             "dirt matrix (harness/dirtmatrix.py: 4 stack arrangements x 6 kinds of local change - unstaged, staged, "
+             "untracked in the way of a created file - x 47 commands on the real repository; the local content must "
+             "survive). Partial: merge-recursive's own refusal and untracked files are judged by the direct oracles only."),
     "C11": dict(category="proof", design_ref="DESIGN.md section 4/C11", note=PROTO_NOTE, technique=PROTO_TECH,
         text="Theorems: with a compare-and-swap on the state commit seen at LOAD time no interleaving loses an update "
              "(all 20 schedules, symbolic values); the log stays linear under every schedule; with the re-read value "
@@ -118,7 +134,9 @@ CHECKS = {
         text="Coq theorems over the transcription of PatchName::{validate,from_str,make,uniquify,collides} and the "
              "patch_name parser: validity (git ref component), totality (no panic), length bound, uniqueness and "
              "termination of uniquify, agreement of the two validity definitions, soundness of the exhaustive "
-             "Unicode table check.",
+             "Unicode table check; the names `stg uncommit` generates from commit messages (make_patchnames as the "
+             "command model runs it) are one valid name per commit, colliding with no patch of the stack - hidden ones "
+             "included - and with no other generated name, and the generation never panics (C14_uncommit_names_fresh).",
         note="Trusted: Coq kernel; translator; ExtrOcamlBasic extraction + OCaml driver; python harness; "
              "to_lowercase modelled per scalar value (final-sigma position abstracted); git's ref rules "
              "transcribed (validated against git check-ref-format each run).",
